@@ -261,6 +261,8 @@ class PrimMixin:
         return SliceV(*args)
 
     def p_builtin_str(self, args, kw, st, fr, node):
+        if args and isinstance(args[0], (int, str)) and not isinstance(args[0], bool):
+            return str(args[0])          # a literal: Python's own rendering
         return Opaque("str()")
 
     def p_builtin_repr(self, args, kw, st, fr, node):
@@ -761,8 +763,16 @@ class PrimMixin:
     def p_builtin_ufn(self, args, kw, st, fr, node):
         """ufn(name, x...) : the uninterpreted libm function used by the engine for `name`"""
         name = args[0]
-        f = ufunc("libm_" + name, *([R] * len(args)))
-        return f(*[to_z3(a, "real") for a in args[1:]])
+        terms = []
+        for a in args[1:]:
+            if isinstance(a, Ref) and isinstance(st.get(a), HArr2):
+                terms.append(st.get(a).data)          # an array argument stands for its contents
+            elif isinstance(a, Ref) and isinstance(st.get(a), HArr):
+                terms.append(self.arr_term(st, a)[1])
+            else:
+                terms.append(to_z3(a, "real"))
+        f = ufunc("libm_" + name, *([t.sort() for t in terms] + [R]))
+        return f(*terms)
 
     def p_builtin_apply(self, args, kw, st, fr, node):
         """apply(fname, x...) : the uninterpreted function standing for a parameter of function type"""
@@ -933,6 +943,9 @@ class PrimMixin:
         return st.alloc(HArr(kind, shape, fresh("empty", z3.ArraySort(I, SORTS[kind])), fresh=True))
 
     def np_zeros_like(self, args, kw, st, fr, node):
+        if kind_of(args[0]) in ("int", "real", "bool"):
+            # zeros_like of a scalar is a 0-d array: a zero of the same kind for every use the scalar paths make of it
+            return z3.RealVal(0) if kind_of(args[0]) == "real" else 0
         h = st.get(args[0])
         return self._alloc_const(h.n, h.kind, 0, st, fr, node)
 
@@ -1042,6 +1055,23 @@ class PrimMixin:
         if kind_of(v) in ("int", "real", "bool", "none"):
             return False
         raise Unsupported("np.iterable of %s" % kind_of(v), node)
+
+    def np_ndim(self, args, kw, st, fr, node):
+        v = args[0]
+        if kind_of(v) in ("int", "real", "bool"):
+            return 0
+        if isinstance(v, Ref) and isinstance(st.get(v), HArr2):
+            return 2
+        if isinstance(v, Ref) and isinstance(st.get(v), HArr):
+            return 1
+        raise Unsupported("np.ndim of %s" % kind_of(v), node)
+
+    def np_isfinite(self, args, kw, st, fr, node):
+        v = args[0]
+        if kind_of(v) in ("int", "real", "bool"):
+            self.use("reals: every scalar float is finite (NaN and infinities are outside the real-number model)")
+            return True
+        raise Unsupported("np.isfinite of %s" % kind_of(v), node)
 
     def np_isscalar(self, args, kw, st, fr, node):
         return kind_of(args[0]) in ("int", "real", "bool", "str")
@@ -1329,6 +1359,14 @@ class PrimMixin:
         except SpecError:
             org = None
         return st.alloc(HArr(h.kind, n, t, org=org, fresh=True, unit=h.unit))
+
+    def nd_transpose(self, args, kw, st, fr, node):
+        h = st.get(args[0])
+        if not isinstance(h, HArr2) or len(args) > 1:
+            raise Unsupported("transpose of a non-2-d array", node)
+        i, j = z3.Int("i!t"), z3.Int("j!t")
+        # a read-only use is all the code makes of it: modelled as a value (writes through the view are not modelled)
+        return st.alloc(HArr2(h.kind, h.n1, h.n0, z3.Lambda([i, j], h.data[j][i] if False else z3.Select(h.data, j, i)), fresh=True))
 
     def nd_view(self, args, kw, st, fr, node):
         a = args[0]
